@@ -13,6 +13,7 @@ package c07
 //	include-raw     … whose env-file values are templates themselves  dotenv.GetEnvFromFile's lookup closure + expandVariables
 //	include-nested  an include inside an include, one env file each  Merge applied twice
 //	include-extends the included service extends a third file        cloned options handed on to extends
+//	include-raw2    … several env files in one entry                 the `envMap` branch of that closure (earlier files)
 //	name            the project name (`name:` of the compose file)   second call of interp.Interpolate (loader.projectName)
 //	skip            Options.SkipInterpolation                        the text is left alone (`$$` stays `$$`)
 //	custom          Options.Interpolate.Substitute replaced          the function is handed the same mapping
@@ -42,7 +43,8 @@ type siteArgs struct {
 	Env    map[string]string `json:"env"`              // ConfigDetails.Environment
 	Layers [][][2]string     `json:"layers,omitempty"` // env files of the enclosing include entries, outermost first
 	Site   string            `json:"site"`
-	Raw    []rawLine         `json:"raw,omitempty"` // site include-raw: the lines of the env file, values are templates
+	Raw    []rawLine         `json:"raw,omitempty"`  // site include-raw: the lines of the env file, values are templates
+	Raw2   [][]rawLine       `json:"raw2,omitempty"` // site include-raw2: several env files in one include entry
 }
 
 type rawLine struct {
@@ -128,6 +130,25 @@ func siteFiles(a siteArgs, t string) (files map[string]string, wantLayers int, s
 		files["compose.yaml"] = "name: p\ninclude:\n  - path: inc/c.yaml\n    env_file: inc/v.env\n"
 		files["inc/c.yaml"] = svcYAML("s", t, "")
 		files["inc/v.env"] = b.String()
+	case "include-raw2":
+		// env_file: [v0.env, v1.env, …] — a later file's values see the earlier files through the `envMap` branch of
+		// GetEnvFromFile's lookup closure
+		var names []string
+		for i, f := range a.Raw2 {
+			var b strings.Builder
+			for _, l := range f {
+				v := renderSegs(l.Ast)
+				if strings.ContainsAny(v, "\"\\\n") {
+					skip = "env-file value not expressible double-quoted"
+				}
+				b.WriteString(l.K + "=\"" + v + "\"\n")
+			}
+			n := fmt.Sprintf("inc/v%d.env", i)
+			files[n] = b.String()
+			names = append(names, n)
+		}
+		files["compose.yaml"] = "name: p\ninclude:\n  - path: inc/c.yaml\n    env_file: [" + strings.Join(names, ", ") + "]\n"
+		files["inc/c.yaml"] = svcYAML("s", t, "")
 	case "name":
 		q, _ := json.Marshal(t)
 		files["compose.yaml"] = "name: " + string(q) + "\nservices:\n  s:\n    image: img\n"
@@ -214,6 +235,9 @@ func init() {
 			layers := a.Layers
 			if len(layers) > n {
 				layers = layers[:n]
+			}
+			if a.Site == "include-raw2" {
+				return map[string]any{"ast": a.Ast, "env": a.Env, "raw2": a.Raw2}
 			}
 			if a.Site == "include-raw" {
 				raw := a.Raw
@@ -319,12 +343,17 @@ func siteJudge(args, real, drv json.RawMessage) *core.Verdict {
 }
 
 func rawText(a siteArgs) string {
-	if len(a.Raw) == 0 {
+	if len(a.Raw) == 0 && len(a.Raw2) == 0 {
 		return ""
 	}
 	var l []string
 	for _, r := range a.Raw {
 		l = append(l, r.K+"=\""+renderSegs(r.Ast)+"\"")
+	}
+	for i, f := range a.Raw2 {
+		for _, r := range f {
+			l = append(l, fmt.Sprintf("[file %d] ", i)+r.K+"=\""+renderSegs(r.Ast)+"\"")
+		}
 	}
 	return ", env-file lines " + strings.Join(l, " ; ")
 }
@@ -350,7 +379,7 @@ func siteStateKey(a siteArgs) string {
 			}
 		}
 	}
-	if len(a.Raw) > 0 {
+	if len(a.Raw) > 0 || len(a.Raw2) > 0 {
 		seen["file-interpolated"] = true
 	}
 	var ks []string
@@ -472,6 +501,47 @@ func runC07Sites(ctx *core.Ctx, rnd func(depth int, inArg bool) []seg) {
 			a.Raw = append(a.Raw, rawLine{K: []string{"A", "B", "_x1", "a", "Kf"}[ctx.Rng.Intn(5)], Ast: rnd(2, false)})
 		}
 		ctx.Count("site-random:include-raw")
+		ctx.Add("substSite", a)
+	}
+	// include-raw2: two env files in one entry; the first sets A (or not), the second computes X from A / B
+	for _, la := range lineAsts {
+		for _, ea := range []*string{nil, str(""), str("v")} {
+			for _, f0 := range []*string{nil, str(""), str("w"), str("$B")} {
+				for _, same := range []bool{false, true} {
+					a := siteArgs{Ast: labelAsts[0], Env: map[string]string{"B": "b"}, Site: "include-raw2"}
+					if ea != nil {
+						a.Env["A"] = *ea
+					}
+					first, second := []rawLine{}, []rawLine{}
+					if f0 != nil {
+						first = append(first, rawLine{K: "A", Ast: []seg{{Lit: f0}}})
+					}
+					if same { // an earlier line of the *same* file shadows the earlier file
+						second = append(second, rawLine{K: "A", Ast: []seg{{Lit: str("s")}}})
+					}
+					second = append(second, rawLine{K: "X", Ast: la})
+					a.Raw2 = [][]rawLine{first, second}
+					ctx.Count("site-exhaustive:include-raw2")
+					ctx.Add("substSite", a)
+				}
+			}
+		}
+	}
+	for i := 0; i < ctx.Pick(400, 10000); i++ {
+		a := siteArgs{Ast: rnd(2, false), Env: map[string]string{}, Site: "include-raw2"}
+		for _, nm := range []string{"A", "B", "_x1", "a", "Kf"} {
+			if ctx.Rng.Intn(3) == 0 {
+				a.Env[nm] = []string{"", "", "v", "val", "${B:-$$}"}[ctx.Rng.Intn(5)]
+			}
+		}
+		for f := 2 + ctx.Rng.Intn(2); f > 0; f-- {
+			file := []rawLine{}
+			for n := ctx.Rng.Intn(3); n > 0; n-- {
+				file = append(file, rawLine{K: []string{"A", "B", "_x1", "a", "Kf"}[ctx.Rng.Intn(5)], Ast: rnd(2, false)})
+			}
+			a.Raw2 = append(a.Raw2, file)
+		}
+		ctx.Count("site-random:include-raw2")
 		ctx.Add("substSite", a)
 	}
 	// random ASTs (well-formed or not), random states, random site
